@@ -77,7 +77,7 @@ HELPERS = r'''
 '''
 
 
-def run_rust_test(crate_dir, module_file, code, test_name="verif_replay_case", timeout=600):
+def run_rust_test(crate_dir, module_file, code, test_name="verif_replay_case", timeout=600, run_timeout=None, mem_gb=None):
     """append `code` (a #[cfg(test)] module) to src/<module_file> of a private copy of the crate and run the test natively (dev profile)"""
     import shutil
     import tempfile
@@ -94,9 +94,30 @@ def run_rust_test(crate_dir, module_file, code, test_name="verif_replay_case", t
                 f.write("\n" + cc + "\n")
         env = dict(os.environ, CARGO_NET_OFFLINE="true", CARGO_TARGET_DIR=os.path.join(crate_dir, "replay_target"), RUSTFLAGS="-A warnings")
         env.pop("RUSTUP_TOOLCHAIN", None)
-        p = subprocess.run(["cargo", "test", "--offline", "--lib", test_name, "--", "--nocapture", "--test-threads", "1"],
-                           cwd=d, env=env, capture_output=True, text=True, timeout=timeout)
-        out = p.stdout + "\n" + p.stderr
+        if run_timeout is not None:
+            # build first (unbounded), then run the test binary under a wall-clock and address-space limit
+            b = subprocess.run(["cargo", "test", "--offline", "--lib", "--no-run"], cwd=d, env=env, capture_output=True, text=True, timeout=timeout)
+            if b.returncode != 0:
+                return b.returncode, b.stdout + "\n" + b.stderr
+            import resource
+
+            def lim():
+                if mem_gb:
+                    resource.setrlimit(resource.RLIMIT_AS, (int(mem_gb * (1 << 30)),) * 2)
+            try:
+                p = subprocess.run(["cargo", "test", "--offline", "--lib", test_name, "--", "--nocapture", "--test-threads", "1"],
+                                   cwd=d, env=env, capture_output=True, text=True, timeout=run_timeout, preexec_fn=lim)
+                out = p.stdout + "\n" + p.stderr
+            except subprocess.TimeoutExpired as e:
+                out = (e.stdout.decode() if isinstance(e.stdout, bytes) else (e.stdout or "")) + "\nVR-TIMEOUT the call did not return within %ds" % run_timeout
+                if os.environ.get("VERIF_DEBUG"):
+                    open("/tmp/replay_last.out", "w").write(out)
+                subprocess.run(["pkill", "-f", os.path.join(crate_dir, "replay_target")], capture_output=True)
+                return 124, out
+        else:
+            p = subprocess.run(["cargo", "test", "--offline", "--lib", test_name, "--", "--nocapture", "--test-threads", "1"],
+                               cwd=d, env=env, capture_output=True, text=True, timeout=timeout)
+            out = p.stdout + "\n" + p.stderr
         if os.environ.get("VERIF_DEBUG"):
             open("/tmp/replay_last.out", "w").write(out)
         return p.returncode, out
